@@ -286,6 +286,10 @@ C   ANY DAMAGES THAT MAY RESULT FROM THE USE OF THE PROGRAM.
       COMMON /CT/ TR1,TI1
       COMMON /TMAT/ RT11,RT12,RT21,RT22,IT11,IT12,IT21,IT22
       COMMON /CHOICE/ ICHOICE
+C  failure is reported to the caller (S.f: ampld) instead of ending the
+C  process with STOP: 1 size beyond NPN1, 2 NGAUSS beyond NPNG1, 3 no
+C  convergence, 4 angle out of range, 5 NMAX beyond NPN1 (VARY)
+      COMMON /TMFAIL/ IFAIL
  
 C  OPEN FILES *******************************************************
  
@@ -339,10 +343,15 @@ C       IF (DABS(RAT-1D0).GT.1D-6) PRINT 8004, AXI
  8004 FORMAT('EQUAL-SURFACE-AREA-SPHERE RADIUS=',F8.4)
       A=RAT*AXI
       XEV=2D0*P*A/LAM
+C  (compared as reals: the integer conversion overflows for huge sizes,
+C  and a NaN fails the test)
+      IF (.NOT.(XEV+4.05D0*XEV**0.333333D0.LT.DBLE(NPN1))) THEN
+         IFAIL=1
+         RETURN
+      ENDIF
       IXXX=XEV+4.05D0*XEV**0.333333D0
       INM1=MAX0(4,IXXX)
 C       IF (INM1.GE.NPN1) PRINT 7333, NPN1
-      IF (INM1.GE.NPN1) STOP
  7333 FORMAT('CONVERGENCE IS NOT OBTAINED FOR NPN1=',I3,  
      &       '.  EXECUTION TERMINATED')
       QEXT1=0D0
@@ -352,13 +361,17 @@ C       IF (INM1.GE.NPN1) PRINT 7333, NPN1
          MMAX=1
          NGAUSS=NMAX*NDGS
 C          IF (NGAUSS.GT.NPNG1) PRINT 7340, NGAUSS
-         IF (NGAUSS.GT.NPNG1) STOP
+         IF (NGAUSS.GT.NPNG1) THEN
+            IFAIL=2
+            RETURN
+         ENDIF
  7340    FORMAT('NGAUSS =',I3,' I.E. IS GREATER THAN NPNG1.',
      &          '  EXECUTION TERMINATED')
  7334    FORMAT(' NMAX =', I3,'  DC2=',D8.2,'   DC1=',D8.2)
          CALL CONST(NGAUSS,NMAX,MMAX,P,X,W,AN,ANN,S,SS,NP,EPS)
          CALL VARY(LAM,MRR,MRI,A,EPS,NP,NGAUSS,X,P,PPI,PIR,PII,R,
      &              DR,DDR,DRR,DRI,NMAX)
+         IF (IFAIL.NE.0) RETURN
          CALL TMATR0 (NGAUSS,X,W,AN,ANN,S,SS,PPI,PIR,PII,R,DR,
      &                 DDR,DRR,DRI,NMAX,NCHECK)
          QEXT=0D0
@@ -382,7 +395,10 @@ c  C     PRINT 7334, NMAX,DSCA,DEXT
          MAXITER=NMAX
          IF(DSCA.LE.DDELT.AND.DEXT.LE.DDELT) GO TO 55
 C          IF (NMA.EQ.NPN1) PRINT 7333, NPN1
-         IF (NMA.EQ.NPN1) STOP      
+         IF (NMA.EQ.NPN1) THEN
+            IFAIL=3
+            RETURN
+         ENDIF
    50 CONTINUE
    55 NNNGGG=NGAUSS+1
       MMAX=NMAX
@@ -396,6 +412,7 @@ C       IF (NGAUSS.EQ.NPNG1) PRINT 7336
          CALL CONST(NGAUSS,NMAX,MMAX,P,X,W,AN,ANN,S,SS,NP,EPS)
          CALL VARY(LAM,MRR,MRI,A,EPS,NP,NGAUSS,X,P,PPI,PIR,PII,R,
      &              DR,DDR,DRR,DRI,NMAX)
+         IF (IFAIL.NE.0) RETURN
          CALL TMATR0 (NGAUSS,X,W,AN,ANN,S,SS,PPI,PIR,PII,R,DR,
      &                 DDR,DRR,DRI,NMAX,NCHECK)
          QEXT=0D0
@@ -507,6 +524,7 @@ C       PHI=128D0
 C  AMPLITUDE MATRIX [Eqs. (2)-(4) of Ref. 6]
       CALL AMPL (NMAX,LAM,THET0,THET,PHI0,PHI,ALPHA,BETA,
      &           S11,S12,S21,S22)     
+      IF (IFAIL.NE.0) RETURN
 C  PHASE MATRIX [Eqs. (13)-(29) of Ref. 6]
 C       Z11=0.5D0*(S11*DCONJG(S11)+S12*DCONJG(S12)
 C      &          +S21*DCONJG(S21)+S22*DCONJG(S22))
@@ -563,6 +581,7 @@ C   CALCULATION OF THE AMPLITUDE MATRIX
      &     TI21(NPN6,NPN4,NPN4),TI22(NPN6,NPN4,NPN4)
       COMPLEX*16 CAL(NPN4,NPN4),VV,VH,HV,HH
       COMMON /TMAT/ TR11,TR12,TR21,TR22,TI11,TI12,TI21,TI22
+      COMMON /TMFAIL/ IFAIL
 
       IF (ALPHA.LT.0D0.OR.ALPHA.GT.360D0.OR.
      &    BETA.LT.0D0.OR.BETA.GT.180D0.OR.
@@ -571,7 +590,8 @@ C   CALCULATION OF THE AMPLITUDE MATRIX
      &    PL.LT.0D0.OR.PL.GT.360D0.OR.
      &    PL1.LT.0D0.OR.PL1.GT.360D0) THEN 
 C         WRITE (6,2000)
-          STOP
+          IFAIL=4
+          RETURN
       ELSE
           CONTINUE
       ENDIF  
@@ -964,6 +984,7 @@ C**********************************************************************
      *        DRR(NPNG2),DRI(NPNG2),
      *        DY(NPNG2,NPN1)
       COMMON /CBESS/ J,Y,JR,JI,DJ,DY,DJR,DJI
+      COMMON /TMFAIL/ IFAIL
       NG=NGAUSS*2
       IF (NP.GT.0) CALL RSP2(X,NG,A,EPS,NP,R,DR)
       IF (NP.EQ.-1) CALL RSP1(X,NG,NGAUSS,A,EPS,NP,R,DR)
@@ -992,10 +1013,23 @@ C**********************************************************************
            ZI(I)=V2
    10 CONTINUE
 C       IF (NMAX.GT.NPN1) PRINT 9000,NMAX,NPN1
-      IF (NMAX.GT.NPN1) STOP
+      IF (NMAX.GT.NPN1) THEN
+         IFAIL=5
+         RETURN
+      ENDIF
  9000 FORMAT(' NMAX = ',I2,', i.e., greater than ',I3)
       TB=TA*DSQRT(MRR*MRR+MRI*MRI)
       TB=DMAX1(TB,DFLOAT(NMAX))
+C  (as reals, before the integer conversions below: the Bessel routines
+C  keep NMAX+NNMAX1 terms in Z(800) and NMAX+NNMAX2 in CZR(1200); an
+C  infinite or NaN size or index fails the test)
+      IF (.NOT.(DFLOAT(NMAX)+1.2D0*DSQRT(DMAX1(TA,DFLOAT(NMAX)))+3D0
+     &          .LE.800D0).OR.
+     &    .NOT.(TB+4D0*(TB**0.33333D0)+1.2D0*DSQRT(TB)+5D0
+     &          .LE.1200D0)) THEN
+         IFAIL=5
+         RETURN
+      ENDIF
       NNMAX1=1.2D0*DSQRT(DMAX1(TA,DFLOAT(NMAX)))+3D0
       NNMAX2=(TB+4D0*(TB**0.33333D0)+1.2D0*DSQRT(TB))
       NNMAX2=NNMAX2-NMAX+5
